@@ -30,7 +30,7 @@ LEVEL = "model_checking"
 # ---------------------------------------------------------------------------------------------------------------
 # candidate names
 BOARD_MISS = ["swapcase", "upper", "lower", "lead-space", "trail-space", "trail-newline", "lead-tab", "prefix", "extend",
-              "fullwidth", "dash-underscore"]
+              "fullwidth", "dash-underscore", "suffix:@1", "suffix:#", "suffix:/", "suffix:.", "wrap:[%]", "suffix:;", "suffix:\x00"]
 
 
 def near(name: str, how: str) -> str:
@@ -56,6 +56,10 @@ def near(name: str, how: str) -> str:
         return name + "x"
     if how == "fullwidth":                      # same glyphs, other code points
         return "".join(chr(ord(c) + 0xFEE0) if "!" <= c <= "~" else c for c in name)
+    if how.startswith("suffix:"):               # the registered name followed by what other tools read as a version / variant / path part
+        return name + how[len("suffix:"):]
+    if how.startswith("wrap:"):                 # ... or wrapped in something
+        return how[len("wrap:"):].replace("%", name)
     if how == "dash-underscore":
         return name.replace("-", "_") if "-" in name else name.replace("_", "-") if "_" in name else name + "_"
     raise ValueError(how)
@@ -65,7 +69,9 @@ def candidates(reg: dict, tier: str, seed: int) -> tuple[list[str], list[str], d
     plats, origin = [], {}
     for p in sorted(reg):
         plats.append(p)
-        for how in ("upper", "capitalize", "lead-space", "trail-space", "trail-newline", "prefix", "extend", "fullwidth"):
+        for how in ("upper", "capitalize", "lead-space", "trail-space", "trail-newline", "prefix", "extend", "fullwidth",
+                    "suffix:@5.0.0", "suffix:@", "suffix:@x", "suffix:#1", "suffix::latest", "suffix:/", "suffix:==1.0", "suffix:;", "suffix:.0", "suffix:-dev", "suffix:_old",
+                    "suffix:\\", "suffix:?", "suffix:*", "suffix:\x00", "suffix:\r", "wrap:platformio/%", "wrap:[%]", "wrap:'%'", "wrap:%,%", "wrap:=%"):
             plats.append(near(p, how))
     plats += ["", "atmel", "avr", "espressif32", "atmelavr,atmelmegaavr"]
     boards = sorted({b for bs in reg.values() for b in bs})
